@@ -6,8 +6,8 @@ package log
 // the level never arrive, context-tracer submissions arrive with all their collected lines, and
 // this also holds when the buffer is full while the writer is not running. The deductive check
 // proves these facts function by function; here the real logger runs with an externally scheduled
-// writer and a capturing adapter on every script of a finite family. One producing goroutine
-// only: interleavings of several producers are NOT covered. Injected with go test -overlay.
+// writer and a capturing adapter on every script of a finite family. The scripts use one producing goroutine; a last part lets 2 / 4 / 8 goroutines log more lines
+// than the buffer holds and checks each goroutine's lines at the adapter. Injected with go test -overlay.
 
 import (
 	"context"
@@ -270,7 +270,82 @@ func TestBoundedC20Log(t *testing.T) {
 	}
 	UnSetPkgLevels()
 	SetLogLevel(InfoLevel)
-	fmt.Printf("BOUNDED name=C20/log-delivery cases=%d distinct=%d bound=%d scripts (every level once; runs of identical and alternating lines; flushes in between; trace submissions with 0-3 collected lines next to plain lines of the same text; a completely filled buffer with the writer not running followed by lines and a submission) x %d level settings (6 global levels; 3 global x 3 package levels; 3 global levels with package levels active for an unrelated package only), one producing goroutine, externally scheduled writer, capturing adapter: the expanded sequence at the adapter equals the enabled lines in order, only plain lines are merged, submissions carry their collected lines\n", cases, cases, len(scripts), len(settings))
+	// ---- several producing goroutines and more lines than the buffer holds, the writer scheduled
+	// at a given pace: every goroutine's lines arrive exactly once and in the order it logged them,
+	// also while producers wait for room in the full buffer; lines below the level never arrive
+	for _, producers := range []int{2, 4, 8} {
+		for _, pace := range []time.Duration{0, 2 * time.Millisecond} {
+			cases++
+			perProducer := 3 * cap(logBuffer) / producers
+			desc := fmt.Sprintf("%d goroutines logging %d lines each, writer triggered every %s", producers, perProducer, pace)
+			stop := make(chan struct{})
+			var schedDone sync.WaitGroup
+			schedDone.Add(1)
+			go func() {
+				defer schedDone.Done()
+				for {
+					select {
+					case <-stop:
+						return
+					default:
+						TriggerWriter()
+						if pace > 0 {
+							time.Sleep(pace)
+						} else {
+							time.Sleep(50 * time.Microsecond)
+						}
+					}
+				}
+			}()
+			var wg sync.WaitGroup
+			for g := 0; g < producers; g++ {
+				g := g
+				wg.Add(1)
+				go func() {
+					defer wg.Done()
+					for i := 0; i < perProducer; i++ {
+						Info(fmt.Sprintf("p%d line %d", g, i))
+						if i%10 == 0 {
+							Debug(fmt.Sprintf("p%d below the level %d", g, i))
+						}
+					}
+				}()
+			}
+			producersDone := make(chan struct{})
+			go func() { wg.Wait(); close(producersDone) }()
+			select {
+			case <-producersDone:
+			case <-time.After(20 * time.Second):
+				fail(desc + ": the producers are still blocked after 20s")
+			}
+			close(stop)
+			schedDone.Wait()
+			got := drain("", producers*perProducer)
+			next := make([]int, producers)
+			for _, r := range got {
+				var g, i int
+				if _, err := fmt.Sscanf(r.text, "p%d line %d", &g, &i); err != nil || g < 0 || g >= producers {
+					fail(fmt.Sprintf("%s: unexpected line at the adapter: %q", desc, r.text))
+					break
+				}
+				if r.duplicates != 0 {
+					fail(fmt.Sprintf("%s: line %q reported with %d repetitions although it was logged once", desc, r.text, r.duplicates))
+					break
+				}
+				if i != next[g] {
+					fail(fmt.Sprintf("%s: goroutine %d: line %d arrives where line %d is due (lost, repeated or out of order)", desc, g, i, next[g]))
+					break
+				}
+				next[g]++
+			}
+			for g, n := range next {
+				if n != perProducer && fails == 0 {
+					fail(fmt.Sprintf("%s: goroutine %d: %d of %d lines arrived", desc, g, n, perProducer))
+				}
+			}
+		}
+	}
+	fmt.Printf("BOUNDED name=C20/log-delivery cases=%d distinct=%d bound=%d scripts (every level once; runs of identical and alternating lines; flushes in between; trace submissions with 0-3 collected lines next to plain lines of the same text; a completely filled buffer with the writer not running followed by lines and a submission) x %d level settings (6 global levels; 3 global x 3 package levels; 3 global levels with package levels active for an unrelated package only), one producing goroutine, externally scheduled writer, capturing adapter; and 2 / 4 / 8 producing goroutines logging three buffer sizes of distinct lines with the writer triggered at two paces (per goroutine: every line once, in order, none below the level): the expanded sequence at the adapter equals the enabled lines in order, only plain lines are merged, submissions carry their collected lines\n", cases, cases, len(scripts), len(settings))
 	if fails > 0 {
 		t.Fatalf("%d of %d cases fail", fails, cases)
 	}
